@@ -120,7 +120,9 @@ static std::vector<CheckDef> g_checks = {
           "program point) states for (b)",
           { "true parallel preemption inside a kernel is not simulated: the argument is that code which never writes static storage has nothing "
             "but caller-owned objects, its own stack and constants to interfere through",
-            "std (non-FIPS) build: the self-test verdict is exercised by C17" } },
+            "a second pass runs the same three modes over the FIPS_MODE archive, half of the runs starting with the self-tests not yet run (they then "
+            "execute under frozen statics inside the first gated call)" },
+          { { "shared", 1 } }, 6000, 400000 },
         { "C15", "exploration", { { "hashlong", 1 }, { "hashjump", -140 } }, 168, 616, 150, 3000, false, false,
           "cases: long-stream workload on every (algorithm, family) pair in turn (run i uses pair i mod 28): up to 4 long clients stream the same "
           "periodic 2 MiB pattern through a 4 GiB aliased window under seeded segmentations (segments up to 2^32-1 bytes, bursts of small "
@@ -253,7 +255,7 @@ struct Exec {
 
 Sim *get_sim_by_name(const std::string &n) { return get_sim(n); }
 
-void fips_mark_self_tests_passed();
+void fips_mark_self_tests_passed(bool not_yet_run = false);
 static Env *g_env = nullptr;
 static Env &env()
 {
@@ -268,7 +270,7 @@ static void exec_plan(Sim *sim, const Plan &p, uint64_t hidden_seed, RunResult &
         e.begin_run(hidden_seed, &r);
         e.mem.set_addr_policy(mix64(p.seed, hash_str("addr-policy")));
         if (g_fips_build && p.sim != "fipsgate" && p.sim != "fipsrace")
-                fips_mark_self_tests_passed();
+                fips_mark_self_tests_passed(p.sim == "shared" && (p.seed & 2)); // (half of the shared-state runs start with the self-tests not yet run)
         try {
                 sim->execute(p, e, r);
         } catch (RunAbort &) {
